@@ -320,6 +320,30 @@ func (u *Unit) frameFormula(comp *Comp, before, after *Term, reg *Region, allocB
 	}
 }
 
+// refInvariant: the encoding invariant "every reference stored in the heap is allocated" for one
+// component value (nil when the component holds no references).
+func (u *Unit) refInvariant(cn string, val, alloc *Term) *Term {
+	enc := u.v.enc
+	comp := enc.comps[cn]
+	if comp == nil || comp.ElemT == nil || (comp.Kind != "field" && comp.Kind != "deref") {
+		return nil
+	}
+	u.cx.n++
+	r := V(fmt.Sprintf("q_r_%d", u.cx.n), SInt)
+	x := Select(val, r)
+	switch comp.ElemT.Underlying().(type) {
+	case *types.Pointer, *types.Map:
+		return Forall([]*Term{r}, And(Ge(x, IntLit(0)), Le(x, alloc)), []*Term{x})
+	case *types.Slice:
+		if comp.Elem != "Slice" {
+			return nil
+		}
+		return Forall([]*Term{r}, And(Ge(enc.Sel("sl_arr", x), IntLit(0)), Le(enc.Sel("sl_arr", x), alloc), Eq(enc.Sel("sl_off", x), IntLit(0)),
+			Ge(enc.Sel("sl_len", x), IntLit(0)), Le(enc.Sel("sl_len", x), enc.Sel("sl_cap", x))), []*Term{x})
+	}
+	return nil
+}
+
 // ---- function entry / return ----
 
 func (u *Unit) clauseEnv(p *Path, fromIface bool, args, results []*Term, old *State) *Env {
@@ -396,6 +420,8 @@ func (u *Unit) inlinedPanic(p *Path, x *ssa.Panic) {
 	o := u.ob(u.siteName(x, "panic"), "safe", nil, "explicit panic in an inlined callee is unreachable")
 	u.check(p, o, tFalse)
 }
+
+var dbgHook func(p *Path, where string)
 
 // ---- loops ----
 
@@ -504,22 +530,28 @@ func (u *Unit) atLoopHead(p *Path, h, pred *ssa.BasicBlock, ord int, back bool) 
 	invs := u.bc.own.Invs[ord]
 	// bind phis from the incoming edge so that invariants can be evaluated
 	u.evalPhis(p, h, pred, nil)
+	if dbgHook != nil {
+		dbgHook(p, fmt.Sprintf("loop %d head", ord))
+	}
 	env := u.invEnv(p, h)
 	stage := "entry"
 	if back {
 		stage = "step"
 	}
+	// invariants are checked in order; each may rely on the ones before it (sequential conjunction)
+	saved := len(p.assumes)
 	for _, c := range invs {
 		g, err := env.EvalBool(c.Expr)
 		if err != nil {
 			u.fail("loop %d invariant %s: %v", ord, c.Label, err)
 		}
-		if c.Free {
-			continue
+		if !c.Free {
+			o := u.ob(fmt.Sprintf("inv%d.%s.%s", ord, c.Label, stage), "inv", c.Props, c.Src)
+			u.check(p, o, g)
 		}
-		o := u.ob(fmt.Sprintf("inv%d.%s.%s", ord, c.Label, stage), "inv", c.Props, c.Src)
-		u.check(p, o, g)
+		p.assume(g)
 	}
+	p.assumes = p.assumes[:saved]
 	// automatic invariants: range index bounds
 	for _, in := range h.Instrs {
 		if phi, ok := in.(*ssa.Phi); ok && phi.Comment == "rangeindex" {
@@ -564,6 +596,9 @@ func (u *Unit) atLoopHead(p *Path, h, pred *ssa.BasicBlock, ord int, back bool) 
 			continue
 		}
 		p.assume(u.frameFormula(comp, u.entry.Get(u.cx, cn), nv, regs[cn], u.entry.Get(u.cx, "alloc"), false))
+		if inv := u.refInvariant(cn, nv, p.st.Get(u.cx, "alloc")); inv != nil {
+			p.assume(inv)
+		}
 	}
 	for a := range wlocals {
 		if old, ok := p.locals[a]; ok {
